@@ -72,6 +72,8 @@ def main():
     slots = int(sys.argv[2]) if len(sys.argv) > 2 else 4
     names = sorted(os.listdir(os.path.join(VERIF, "seeded")))
     names = [n for n in names if os.path.exists(os.path.join(VERIF, "seeded", n, "patch.diff"))]
+    if len(sys.argv) > 3:       # optional name prefix filter
+        names = [n for n in names if n.startswith(sys.argv[3])]
     parts = [(i, names[i::slots]) for i in range(slots)]
     with Pool(slots) as pool:
         allres = [r for part in pool.map(work, parts) for r in part]
